@@ -5,11 +5,11 @@ Model: `MxModel.Relative` (Kernels/Relative.lean: `SpaceGraph.get_relative`, the
 in Props/C10.lean.  After every operation of every history
 
 * correspondence: every derived reference of every space is compared with the kernel's decision for
-  the world modelx itself reports (direct bases, members, the reference's stored mode, its definer's
-  value): bound object (kind, dotted name, identity with the object that name denotes), the flag
-  `is_relative`; when a reference is (re)assigned in a base, the per-sub-space step of
+  the world modelx itself reports (direct bases, members, the definer's mode and value): bound object (kind, dotted name, identity with the object that name denotes), the flag
+  `is_relative`; when a reference is (re)assigned in a base, the loop of
   `new_ref`/`change_ref` is an admitted alternative for exactly the reference objects that loop
-  created; every reference of every dynamic space of an instantiated ItemSpace tree is compared with
+  created (it differs from re-derivation only where change_ref does not check relative references
+  and in the flag of references holding no object); every reference of every dynamic space of an instantiated ItemSpace tree is compared with
   the kernel's `wrap_impl` (or, when the ItemSpace cannot be built, the kind of error);
 * oracle (implementation only, Python on paths and objects): the statement – relative/auto references
   to the defining space / its cells denote the deriving space / its cells, absolute ones and those
@@ -38,14 +38,11 @@ HOLDERS = ["def", "ch", "gr"]
 STATIC_DERIVERS = ["bases", "addbases", "late", "subsub", "nested", "nestedsub"]
 DYNAMIC_DERIVERS = ["item", "itemnested", "itemderived", "itemderivedchild", "itemchange"]
 
-KEY_SUFFIX = "C10-suffix-clash-must-not-happen"
-KEY_REFMODE = "C10-derived-refmode-stale"
-KEY_FLAG = "C10-change-ref-stale-flag"
-KEY_DYN_DERIVED = "C10-dyn-derived-auto-outside"
-KEY_DYN_PREFIX = "C10-dyn-name-prefix"
+# the two known findings that are not repaired in /repo (the six others are `fixed` entries of
+# known_findings.json; their witnesses corpus/C10/fixed-*.json run first as regression inputs)
 KEY_DYN_ABS = "C10-dyn-derived-absolute-inside"
-KEY_THREAD = "C10-ref-loop-null-threading"
 KEY_ENCL = "C10-enclosing-base-change"
+KEY_CHG_REL = "C10-change-ref-relative-unchecked"
 
 
 # ----------------------------------------------------------------------------- model driver
@@ -205,10 +202,9 @@ class Run:
         self.pending = []        # (first line index, n lines, handler)
         self.alt = {}            # (space, name) -> (refobj, expected string) set by new_ref/change_ref loops
         self.prevdef = {}        # (space, name) -> (refobj, definer refobj, definer mode)
-        self.stale_flag = {}     # (space, name) -> refobj whose flag change_ref left at the default
-        self.stale_mode = {}     # (space, name) -> refobj
-        self.threaded = {}       # id(refobj) -> refobj that got another sub space's null object
         self.enclosing = {}      # id(refobj) -> refobj not re-derived after the enclosing pair changed
+        self.history_refs = set()
+        self.chg_rel = {}        # id(refobj) -> relative-mode derived reference change_ref bound absolutely
         self.last = {}           # id(refobj) -> (refobj, interface, flag, agreed with the model, tree root)
         self.tmp = None
         self.nontrivial = False
@@ -333,19 +329,15 @@ class Run:
                 "world": world_lines(live)}
 
     def after_set_ref(self, k, op, pre):
-        """the references the loop created: the kernel's newRefSub / changeRefSub is an admitted
-        alternative to re-derivation for exactly these objects; a null object produced for one sub
-        space is passed on to the following ones (`value` is reassigned inside the loop)"""
+        """the references the loop created: the kernel's loop over the visited sub spaces is an
+        admitted alternative to re-derivation for exactly these objects (it differs from it only in
+        the flag of references that hold no valid object)"""
         if not pre["subs"]:
             return
         lines = list(pre["world"])
         lines.append("refloop %s %s %s %s %s %s" % (
             "1" if pre["kind"] == "change" else "0", pre["mode"], pre["space"], pre["val"][0], pre["val"][1],
             ",".join(pre["subs"])))
-        # the same without the loop's reassignment of `value`: each sub space on its own
-        cmd = "changeref" if pre["kind"] == "change" else "newref"
-        for sub in pre["subs"]:
-            lines.append("%s %s %s %s %s %s" % (cmd, pre["mode"], sub, pre["space"], pre["val"][0], pre["val"][1]))
         refs = {}
         for sub in pre["subs"]:
             try:
@@ -358,15 +350,8 @@ class Run:
             loop = res[base].split(" | ")
             for i, sub in enumerate(pre["subs"]):
                 exp = loop[i] if i < len(loop) else "mnh"
-                single = res[base + 1 + i]
                 if refs[sub] is not None:
                     self.alt[id(refs[sub])] = (refs[sub],) + self.resolve(exp)
-                    if pre["kind"] == "change":
-                        self.stale_flag[id(refs[sub])] = refs[sub]
-                    if exp.split(" ")[:2] != single.split(" ")[:2]:
-                        # the loop handed this sub space the null object of an earlier one
-                        self.threaded[id(refs[sub])] = refs[sub]
-                        self.stats["newref_null_threaded"] += 1
         self.ask(lines, handler)
         self.flush()
 
@@ -435,10 +420,7 @@ class Run:
                 if kind == "Value" and not raised:
                     self.disagree(k, r, "model: no sub space rejects the relative reference")
                 if kind == "Runtime":
-                    if not mnh:
-                        self.disagree(k, r, "model: get_relative does not reach 'must not happen'")
-                    else:
-                        self.suffix_clash(k, op, r)
+                    self.runtime_error(k, op, r, mnh)
             self.ask(lines, handler)
             self.flush()
             return
@@ -500,12 +482,11 @@ class Run:
                                 cur = live.space(t)._impl.own_refs.get(n)
                             except Exception:
                                 cur = None
-                            mode = cur.refmode if (cur is not None and cur.is_derived()) else rr.refmode
-                            qs.append("inherit %s %s %s %s %s R" % (mode, t, b, c[0], c[1]))
+                            qs.append("inherit %s %s %s %s %s R" % (rr.refmode, t, b, c[0], c[1]))
             if not qs:
                 self.stats["unpredicted_rejection:%s:%s" % (op[0], kind)] += 1
                 if kind == "Runtime":
-                    self.disagree(k, r, "model: nothing to derive, no 'must not happen'")
+                    self.runtime_error(k, op, r, False)
                 return
 
             def handler2(res2):
@@ -514,25 +495,22 @@ class Run:
                 if kind == "Value" and not rej:
                     self.stats["unpredicted_rejection:%s:%s" % (op[0], kind)] += 1
                 if kind == "Runtime":
-                    if mnh:
-                        self.suffix_clash(k, op, r)
-                    else:
-                        self.stats["unpredicted_rejection:%s:%s" % (op[0], kind)] += 1
-                        self.disagree(k, r, "model: get_relative does not reach 'must not happen'")
+                    self.runtime_error(k, op, r, mnh)
                 if kind == "Value" and rej:
                     self.stats["predicted_rejection:relative_out_of_scope"] += 1
             self.ask(lines + qs, handler2)
         self.ask(lines, handler)
         self.flush()
 
-    def suffix_clash(self, k, op, r):
-        """RuntimeError('must not happen'): one dotted name is a suffix of the other"""
-        self.stats["must_not_happen"] += 1
-        self.fail("a space whose dotted name ends with its base's dotted name (or vice versa) cannot derive an "
-                  "object-valued auto/relative reference: RuntimeError('must not happen') from get_relative",
-                  k, detail={"op": op, "result": r}, key=KEY_SUFFIX)
+    def runtime_error(self, k, op, r, model_mnh):
+        """a RuntimeError out of an edit ('must not happen'): never right, whatever the model says
+        (for a space that has the definer in its linearisation the model proves it unreachable:
+        static_never_must_not_happen)"""
+        self.stats["runtime_error"] += 1
+        self.fail("an edit of references / bases ended in RuntimeError", k,
+                  detail={"op": op, "result": r, "model_reaches_must_not_happen": model_mnh})
 
-    # -- tracking of definers (for the stale-mode recogniser)
+    # -- tracking of definers: which derived reference objects changed their definer
     def track_definers(self, k, op, before_refs):
         cur = {}
         for path, s in W.all_spaces(self.live.m):
@@ -542,11 +520,8 @@ class Run:
                     if dr is None:
                         continue
                     old = self.prevdef.get(id(r))
-                    if old is not None and old[0] is r and old[1] is not dr and old[2] != dr.refmode \
-                            and op[0] != "set_ref":
-                        # the same derived reference object now derives from another definer with
-                        # another mode, through re-derivation (not through new_ref/change_ref)
-                        self.stale_mode[id(r)] = r
+                    if old is not None and old[0] is r and old[1] is not dr and old[2] != dr.refmode:
+                        self.stats["definer_switch_with_other_mode"] += 1
                     cur[id(r)] = (r, dr, dr.refmode)
         self.prevdef = cur
 
@@ -565,12 +540,14 @@ class Run:
                 if dr is None:
                     continue
                 c = classify(dr.interface)
-                lines.append("inherit %s %s %s %s %s %s" % (r.refmode, path, b.idstr, c[0], c[1],
+                # (on_inherit takes the mode from the definer)
+                lines.append("inherit %s %s %s %s %s %s" % (dr.refmode, path, b.idstr, c[0], c[1],
                                                              "R" if r.is_relative else "A"))
-                # the reader assigns references in tree order: a definer that overrides a base's
-                # reference may have been assigned through change_ref
-                over = after_read and any(name in bb.own_refs for bb in b.bases)
-                lines.append("changeref %s %s %s %s %s" % (r.refmode, path, b.idstr, c[0], c[1]))
+                # the reader assigns the references after the bases: a derived reference of a model
+                # just read may come from the loop of new_ref / change_ref instead of on_inherit
+                # (the two differ for a relative-mode reference re-assigned to an object outside:
+                # change_ref does not reject it, and for the flag of references holding no object)
+                lines.append("newref %s %s %s %s %s" % (dr.refmode, path, b.idstr, c[0], c[1]))
                 got = classify(r.interface)
                 obs = "bound %s %s" % (tgt_str(got), "R" if r.is_relative else "A")
                 ident = True
@@ -591,7 +568,7 @@ class Run:
                 # reference was last derived is history (children are not inherited); outside the statement
                 desc = (c[0] == "obj" and under(b.idstr, c[1]) and c[1] != b.idstr
                         and not (c[1].count(".") == b.idstr.count(".") + 1 and c[1].rsplit(".", 1)[1] in b.cells))
-                items.append((path, name, got, obs, ident, alt, desc, s, r, b, dr, over, tree_root(simpl, b)))
+                items.append((path, name, got, obs, ident, alt, desc, s, r, b, dr, tree_root(simpl, b), c[0] == "null"))
         if not items:
             self.last = {}
             return
@@ -600,9 +577,9 @@ class Run:
         newlast = {}
 
         def handler(res, items=items, k=k):
-            for n, (path, name, got, obs, ident, alt, desc, s, r, b, dr, over, tr) in enumerate(items):
+            for n, (path, name, got, obs, ident, alt, desc, s, r, b, dr, tr, dangling) in enumerate(items):
                 exp = res[n0 + 2 * n]
-                exp_chg = res[n0 + 2 * n + 1]
+                exp_new = res[n0 + 2 * n + 1]
                 if got[0] == "plain":
                     # the flag of a reference that holds no object means nothing: not compared
                     obs = obs.rsplit(" ", 1)[0]
@@ -613,27 +590,29 @@ class Run:
                 newlast[id(r)] = (r, r.interface, bool(r.is_relative), ok, tr)
                 if ok:
                     self.enclosing.pop(id(r), None)
-                if not ok and exp == "mnh":
-                    # derived before a rename made one dotted name a suffix of the other: the next
-                    # re-derivation would raise; nothing to compare now
-                    self.stats["snapshot_model_must_not_happen"] += 1
-                    continue
                 if not ok and alt:
                     ok = True
                     self.stats["matched_loop_alternative"] += 1
-                if not ok and over and obs == exp_chg:
+                    if exp == "reject":
+                        self.chg_rel[id(r)] = r
+                if not ok and after_read and obs == (exp_new if got[0] != "plain" else exp_new.rsplit(" ", 1)[0]):
                     ok = True
-                    self.stale_flag[id(r)] = r
-                    self.alt[id(r)] = (r,) + self.resolve(exp_chg)
-                    self.stats["matched_change_ref_while_reading"] += 1
-                if not ok and desc and obs == "bound null R" and exp.startswith("bound obj:") and exp.endswith(" R"):
+                    self.alt[id(r)] = (r,) + self.resolve(exp_new)
+                    self.stats["matched_loop_alternative_after_read"] += 1
+                    if exp == "reject":
+                        self.chg_rel[id(r)] = r
+                if not ok and desc:
+                    # (typically: null object although the counterpart exists now, because it was created
+                    # after the last derivation; or the counterpart was renamed / deleted since)
                     ok = True
-                    self.stats["static_descendant_counterpart_created_later"] += 1
-                if not ok and desc and obs == "bound null A" and exp.endswith(" R"):
-                    # new_ref/change_ref pass the null object produced for an earlier sub space on to the
-                    # following ones (also while a model is read); outside the statement as well
+                    ident = True
+                    self.stats["static_descendant_history"] += 1
+                if not ok and dangling:
+                    # the definer's target was deleted (a dangling reference, C13's subject); what the
+                    # sub spaces still hold is history
                     ok = True
-                    self.stats["static_descendant_null_threaded"] += 1
+                    ident = True
+                    self.stats["definer_dangling_history"] += 1
                 if not ok:
                     # the outermost related pair of spaces changed (a base change, deletion or rename at
                     # an enclosing level) and this reference was not derived again
@@ -655,7 +634,7 @@ class Run:
         self.ask(lines, handler)
         self.flush()
         self.last = newlast
-        for (path, name, got, obs, ident, alt, desc, s, r, b, dr, over, tr) in items:
+        for (path, name, got, obs, ident, alt, desc, s, r, b, dr, tr, dangling) in items:
             self.oracle_static(k, path, name, s, r, b, dr)
 
     def oracle_static(self, k, path, name, s, r, dspace, dr):
@@ -671,9 +650,8 @@ class Run:
         except Exception as e:
             pmode = "err " + err_kind(e)
         if pmode != dmode:
-            stale = self.stale_mode.get(id(r))
             self.fail("ReferenceProxy.refmode of the derived reference %s is %r, its definer's mode is %r" % (
-                where, pmode, dmode), k, key=KEY_REFMODE if stale is r else None)
+                where, pmode, dmode), k)
             self.nontrivial = True
             return      # with a stale mode the binding follows the stale mode; one failure is enough
         if not (isinstance(T, Interface) and T._is_valid()):
@@ -700,22 +678,15 @@ class Run:
         if expected is None:
             return
         if val is not expected:
-            th = self.threaded.get(id(r))
-            key = None
-            if th is r and classify(val)[0] == "null":
-                key = KEY_THREAD
-            elif self.enclosing.get(id(r)) is r:
-                key = KEY_ENCL
+            key = KEY_ENCL if self.enclosing.get(id(r)) is r else None
             self.fail("%s denotes %s, the statement requires %s" % (
                 where, W.val_repr(val) if isinstance(val, Interface) else repr(val), W.val_repr(expected)), k, key=key)
             return
         if bool(r.is_relative) != expflag:
             if self.enclosing.get(id(r)) is r:
                 return
-            st = self.stale_flag.get(id(r))
             self.fail("%s: is_relative is %s although the binding is %s" % (
-                where, r.is_relative, "relative" if expflag else "absolute"), k,
-                key=KEY_FLAG if st is r else None)
+                where, r.is_relative, "relative" if expflag else "absolute"), k)
 
     # -- formulas reading the references evaluate
     def op_evalrefs(self, k):
@@ -810,7 +781,7 @@ class Run:
 
         def handler(res, plan=plan, observed=observed, err=err, recog=recog, k=k):
             exps = res[n0:]
-            bad = {"missing": "Attribute", "attrerr": "Attribute", "reject": "Value", "mnh": "Runtime"}
+            bad = {"missing": "Attribute", "reject": "Value", "mnh": "Runtime"}
             first_bad = next(((i, e) for i, e in enumerate(exps) if e in bad), None)
             if err is not None:
                 if first_bad is None:
@@ -853,8 +824,8 @@ class Run:
         return "dyn " + (".".join(reversed(names)) or "-")
 
     def oracle_item(self, k, op, base, plan, item, err):
-        """statement for ItemSpace trees, on the implementation alone; returns the recognised triggers
-        (index in plan -> finding key) that explain a failed creation"""
+        """statement for ItemSpace trees, on the implementation alone; returns the references (index in
+        plan) whose rejection is by design: relative mode with a target outside the base"""
         live = self.live
         root = base.idstr
         recog = {}
@@ -877,12 +848,6 @@ class Run:
                 by_design = True          # a relative reference that cannot be relative: rejected
                 recog.setdefault(i, "by-design")
                 continue
-            # recognisers for the known deviations
-            if br.is_relative and not inside and tpath.startswith(root):
-                recog.setdefault(i, KEY_DYN_PREFIX)
-            elif br.is_relative and not inside and br.refmode == "auto" and br.is_derived():
-                st = self.stale_flag.get(id(br))
-                recog.setdefault(i, KEY_FLAG if st is br else KEY_DYN_DERIVED)
             if item is None:
                 continue
             self.nontrivial = True
@@ -903,6 +868,14 @@ class Run:
                     self.fail("an auto reference that the ItemSpace's base tree derives from a space outside it (absolute "
                               "binding there) and whose target lies inside the base's tree is not rebound to the dynamic tree",
                               k, key=KEY_DYN_ABS)
+                    continue
+            if dmode == "relative" and inside and br.is_derived() and not br.is_relative and br.refmode == "relative" \
+                    and self.chg_rel.get(id(br)) is br:
+                # change_ref accepted a relative reference that is not relative for this sub space
+                if got is T:
+                    self.fail("a relative reference re-assigned (change_ref) to an object outside a sub space's tree is not "
+                              "rejected: the sub space holds a relative-mode reference bound absolutely, which ItemSpaces do "
+                              "not rebind although the target lies inside their base's tree", k, key=KEY_CHG_REL)
                     continue
             if dmode != "absolute" and inside:
                 want = item
@@ -929,7 +902,7 @@ class Run:
 
     def confirm_item_finding(self, k, op, idx, model_result, recog):
         """creation failed and the model predicts exactly this failure for the reference plan[idx]:
-        a known finding only if the implementation-side recogniser names the same reference"""
+        right only for a relative-mode reference with a target outside the base (rejected by design)"""
         key = recog.get(idx)
         if key is None:
             if recog:       # (with an empty recog oracle_item has already reported the failure)
@@ -940,23 +913,12 @@ class Run:
                 self.disagree(k, "ItemSpace creation rejected a relative reference", "model: " + model_result)
             self.stats["item_rejected_relative_outside"] += 1
             return
-        want = {KEY_DYN_PREFIX: "missing", KEY_DYN_DERIVED: "attrerr", KEY_FLAG: "attrerr"}[key]
-        if model_result != want:
-            self.fail("the ItemSpace of %s cannot be created" % op[1], k)
-            return
-        what = {
-            KEY_DYN_PREFIX: "a reference whose target's dotted name merely starts with the base's dotted name "
-                            "(Base / Base2.foo) makes every ItemSpace of the base fail",
-            KEY_DYN_DERIVED: "a derived auto reference bound relatively to an enclosing pair of spaces, target outside "
-                             "the ItemSpace's base: wrap_impl raises AttributeError (value.direct_bases)",
-            KEY_FLAG: "change_ref left is_relative=True on a derived auto reference now bound absolutely; "
-                      "ItemSpaces of the sub space fail with AttributeError (value.direct_bases)",
-        }[key]
-        self.fail(what, k, key=key)
+        self.fail("the ItemSpace of %s cannot be created" % op[1], k)
 
     # -- write / read
     def op_roundtrip(self, k, op):
         live = self.live
+        self.history_refs = set()     # derived references whose binding is history (see snapshot)
         before, objs = self.describe_refs()
         if self.tmp is None:
             self.tmp = tempfile.mkdtemp(prefix="mxh_c10_")
@@ -980,33 +942,33 @@ class Run:
         after, objs_after = self.describe_refs()
         self.stats["roundtrips"] += 1
         self.nontrivial = True
-        stale_flag_before, stale_mode_before = self.stale_flag, self.stale_mode
         # the model read back is a new history of object identities
-        self.alt, self.prevdef, self.stale_flag, self.stale_mode, self.threaded = {}, {}, {}, {}, {}
-        self.enclosing, self.last = {}, {}
+        self_enclosing_before = self.enclosing
+        self.alt, self.prevdef = {}, {}
+        self.enclosing, self.last, self.chg_rel = {}, {}, {}
         self.track_definers(k, op, {})
         self.snapshot(k, after_read=True)
         for key in sorted(set(before) | set(after)):
             b, a = before.get(key), after.get(key)
             if b == a:
                 continue
-            if b is not None and a is not None and b[0] and b[2] == "null":
-                # a derived reference to a descendant whose counterpart was created after the last
-                # derivation: reading derives again (outside the statement, see snapshot)
-                self.stats["roundtrip_null_rebound"] += 1
+            if b is not None and a is not None and b[0] and (b[2] == "null" or key in self.history_refs):
+                # a derived reference to a descendant of the definer (or to a deleted object): the
+                # counterpart is looked up again while reading (outside the statement, see snapshot)
+                self.stats["roundtrip_history_rebound"] += 1
                 continue
             r = objs.get(key)
             r2 = objs_after.get(key)
             if b is not None and a is not None and b[:3] == a[:3]:
-                # only the flag differs: stale before writing, or left stale by the reader's change_ref
-                st = stale_flag_before.get(id(r)) is r and r is not None
-                st2 = self.stale_flag.get(id(r2)) is r2 and r2 is not None
-                self.fail("write/read changed is_relative of %s.%s: %s -> %s" % (key[0], key[1], b, a), k,
-                          key=KEY_FLAG if (st or st2) else None)
+                # only the flag differs
+                self.fail("write/read changed is_relative of %s.%s: %s -> %s" % (key[0], key[1], b, a), k)
                 continue
-            stale = stale_mode_before.get(id(r))
-            self.fail("write/read changed the reference %s.%s: %s -> %s" % (key[0], key[1], b, a), k,
-                      key=KEY_REFMODE if stale is r and r is not None else None)
+            if self_enclosing_before.get(id(r)) is r and r is not None:
+                # a binding left behind by an enclosing base change (known finding) is derived anew
+                self.stats["roundtrip_rederived_after_enclosing_change"] += 1
+                self.fail("write/read changed the reference %s.%s: %s -> %s" % (key[0], key[1], b, a), k, key=KEY_ENCL)
+                continue
+            self.fail("write/read changed the reference %s.%s: %s -> %s" % (key[0], key[1], b, a), k)
         try:
             old.close()
         except Exception:
@@ -1025,6 +987,12 @@ class Run:
                 d[(path, name)] = (bool(r.is_derived()), r.refmode if isobj else None, tgt_str(c),
                                    bool(r.is_relative) if isobj else None)
                 objs[(path, name)] = r
+                if r.is_derived():
+                    b, dr = definer_of(s._impl, name)
+                    cd = classify(dr.interface)
+                    if cd[0] == "null" or (cd[0] == "obj" and under(b.idstr, cd[1]) and cd[1] != b.idstr and not (
+                            cd[1].count(".") == b.idstr.count(".") + 1 and cd[1].rsplit(".", 1)[1] in b.cells)):
+                        self.history_refs.add((path, name))
         return d, objs
 
 
@@ -1260,36 +1228,49 @@ def scenarios():
         ["new_space", "-", "Qa", ["Pa"]], ["new_space", "Qa", "Sub", ["Pa.Def"]], ["new_space", "Qa.Sub", "Ch", ["Pa.Def.Ch"]],
         ["new_space", "-", "Top", ["Pa.Def"]], ["roundtrip"], ["evalrefs"], ["params", "Pa.Def"], ["item", "Pa.Def"],
         ["roundtrip"], ["item", "Pa.Def"]]))
-    # a definer change through remove_bases with equal modes (the partial statement)
-    S.append(("definer-switch-same-mode", [
+    # dotted names that end with one another (A.B and B, A.B.C and B.C), both directions, with edits
+    S.append(("trailing-names", [
+        ["new_space", "-", "Bsp", []], ["cells", "Bsp", "foo", 1], ["new_space", "Bsp", "Csp", []], ["cells", "Bsp.Csp", "cc", 2],
+        ["set_ref", "Bsp", "ra", ("obj", "Bsp"), "auto"], ["set_ref", "Bsp", "rl", ("obj", "Bsp.foo"), "relative"],
+        ["set_ref", "Bsp.Csp", "rc", ("obj", "Bsp.foo"), "auto"], ["set_ref", "Bsp.Csp", "rd", ("obj", "Bsp.Csp.cc"), "relative"],
+        ["usecells", "Bsp", "use_rl", "rl"],
+        ["new_space", "-", "Asp", []], ["new_space", "Asp", "Bsp", ["Bsp"]], ["new_space", "Asp.Bsp", "Csp", ["Bsp.Csp"]],
+        ["evalrefs"], ["set_ref", "Bsp", "ra", ("obj", "Bsp.foo"), "auto"], ["set_ref", "Bsp.Csp", "rc", ("obj", "Bsp"), "relative"],
+        ["new_space", "-", "Csp", ["Asp.Bsp.Csp"]], ["evalrefs"], ["params", "Asp.Bsp"], ["item", "Asp.Bsp"],
+        ["remove_bases", "Asp.Bsp.Csp", ["Bsp.Csp"]], ["add_bases", "Asp.Bsp.Csp", ["Bsp.Csp"]], ["roundtrip"], ["evalrefs"]]))
+    # a definer change through remove_bases / del_ref with different modes
+    S.append(("definer-switch", [
         ["new_space", "-", "Bone", []], ["new_space", "-", "Btwo", []],
         ["set_ref", "Bone", "rr", ("obj", "Bone"), "auto"], ["set_ref", "Btwo", "rr", ("obj", "Btwo"), "auto"],
-        ["new_space", "-", "Sub", ["Bone", "Btwo"]], ["remove_bases", "Sub", ["Bone"]], ["add_bases", "Sub", ["Bone"]],
-        ["del_ref", "Btwo", "rr"], ["roundtrip"]]))
+        ["set_ref", "Bone", "rs", ("obj", "Bone"), "absolute"], ["set_ref", "Btwo", "rs", ("obj", "Btwo"), "relative"],
+        ["new_space", "-", "Sub", ["Bone", "Btwo"]], ["new_space", "-", "GSub", ["Sub"]],
+        ["remove_bases", "Sub", ["Bone"]], ["add_bases", "Sub", ["Bone"]],
+        ["del_ref", "Btwo", "rr"], ["set_ref", "Sub", "rs", ("obj", "Sub"), "auto"], ["del_ref", "Sub", "rs"],
+        ["roundtrip"]]))
     return S
 
 
 def known_witnesses():
     return [
-        ("known-suffix-clash", [
+        ("fixed-suffix-clash", [
             ["new_space", "-", "Asp", []], ["new_space", "Asp", "Bsp", []], ["set_ref", "Asp.Bsp", "rr", 3, "auto"],
             ["new_space", "-", "Bsp", ["Asp.Bsp"]], ["set_ref", "Asp.Bsp", "rr", ("obj", "Asp.Bsp"), "auto"]]),
-        ("known-suffix-clash-2", [
+        ("fixed-suffix-clash-2", [
             ["new_space", "-", "Bsp", []], ["set_ref", "Bsp", "rr", ("obj", "Bsp"), "auto"],
             ["new_space", "-", "Asp", []], ["new_space", "Asp", "Bsp", ["Bsp"]]]),
-        ("known-refmode-stale", [
+        ("fixed-refmode-stale", [
             ["new_space", "-", "Bone", []], ["new_space", "-", "Btwo", []],
             ["set_ref", "Bone", "rr", ("obj", "Bone"), "absolute"], ["set_ref", "Btwo", "rr", ("obj", "Btwo"), "auto"],
             ["new_space", "-", "Sub", ["Bone", "Btwo"]], ["remove_bases", "Sub", ["Bone"]]]),
-        ("known-change-ref-flag", [
+        ("fixed-change-ref-flag", [
             ["new_space", "-", "Base", []], ["cells", "Base", "foo", 1], ["new_space", "-", "Out", []], ["cells", "Out", "oo", 2],
             ["set_ref", "Base", "rr", ("obj", "Base.foo"), "auto"], ["new_space", "-", "Sub", ["Base"]],
             ["set_ref", "Base", "rr", ("obj", "Out.oo"), "auto"], ["params", "Sub"], ["item", "Sub"]]),
-        ("known-dyn-derived-auto-outside", [
+        ("fixed-dyn-derived-auto-outside", [
             ["new_space", "-", "Ysp", []], ["cells", "Ysp", "foo", 1], ["new_space", "Ysp", "Ch", []],
             ["set_ref", "Ysp.Ch", "rr", ("obj", "Ysp.foo"), "auto"], ["new_space", "-", "Xsp", ["Ysp"]],
             ["new_space", "Xsp", "Ch", ["Ysp.Ch"]], ["params", "Xsp.Ch"], ["item", "Xsp.Ch"]]),
-        ("known-ref-loop-null-threading", [
+        ("fixed-ref-loop-null-threading", [
             ["new_space", "-", "Ysp", []], ["new_space", "Ysp", "Ch", []], ["new_space", "Ysp", "Other", []],
             ["new_space", "-", "Xsp", ["Ysp"]], ["new_space", "Xsp", "Ch", ["Ysp.Ch"]], ["new_space", "-", "Zsp", ["Ysp.Ch"]],
             ["set_ref", "Ysp.Ch", "rr", ("obj", "Ysp.Other"), "auto"]]),
@@ -1297,10 +1278,15 @@ def known_witnesses():
             ["new_space", "-", "Ysp", []], ["cells", "Ysp", "foo", 1], ["new_space", "Ysp", "Ch", []],
             ["set_ref", "Ysp.Ch", "rr", ("obj", "Ysp.foo"), "auto"], ["new_space", "-", "Xsp", ["Ysp"]],
             ["new_space", "Xsp", "Ch", ["Ysp.Ch"]], ["remove_bases", "Xsp", ["Ysp"]]]),
+        ("known-change-ref-relative-unchecked", [
+            ["new_space", "-", "Base", []], ["new_space", "-", "Sub", []], ["new_space", "Base", "Gr", []],
+            ["set_ref", "Base.Gr", "rc", ("obj", "Sub"), "absolute"], ["params", "Base"],
+            ["new_space", "Base", "Kid", ["Base.Gr"]], ["cells", "Base", "baz", 2],
+            ["set_ref", "Base.Gr", "rc", ("obj", "Base.baz"), "relative"], ["item", "Base"]]),
         ("known-dyn-derived-absolute-inside", [
             ["new_space", "-", "Base", []], ["new_space", "-", "Sub", []], ["set_ref", "Sub", "rb", ("obj", "Base"), "auto"],
             ["new_space", "Base", "Ch", ["Sub"]], ["params", "Base"], ["item", "Base"]]),
-        ("known-dyn-name-prefix", [
+        ("fixed-dyn-name-prefix", [
             ["new_space", "-", "Base", []], ["new_space", "-", "Base2", []], ["cells", "Base2", "foo", 1],
             ["set_ref", "Base", "rr", ("obj", "Base2.foo"), "auto"], ["params", "Base"], ["item", "Base"]]),
     ]
@@ -1342,8 +1328,8 @@ def gen_next(rng, live, ops):
         if not free:
             return ["evalrefs"]
         nm = rng.choice(free)
-        if parent != "-" and rng.random() < 0.04 and "Sub" not in taken:
-            nm = "Sub"          # now and then a child named like a top-level space
+        if parent != "-" and rng.random() < 0.15 and "Sub" not in taken:
+            nm = "Sub"          # a child named like a top-level space: one dotted name ends with the other
         newp = nm if parent == "-" else parent + "." + nm
         cand = [b for b in paths if b != parent and not under(b, newp) and not under(newp, b)
                 and not (parent != "-" and under(b, parent))]
